@@ -93,7 +93,9 @@ WIDE_DOCS = [
     [{"a": 1, "b": 2, "c": 3}, {"x": 1, "y": 2, "z": 3}], {"k": {"a": 1, "b": [2], "c": 3}, "l": 0},
     {"a": {"p": 1, "q": 2, "r": 3}, "b": [0]}, {"a": [1, 2], "b": [3], "c": [4, [5]]},
 ]
-WIDE_QUERIES = ["$.*", "$[*]", "$[?@]", "$[?@ != 2]", "$..*", "$[*][*]", "$.*.*", "$..[?@]", "$[*, *]", "$[?@, *]"]
+WIDE_QUERIES = ["$.*", "$[*]", "$[?@]", "$[?@ != 2]", "$..*", "$[*][*]", "$.*.*", "$..[?@]", "$[*, *]", "$[?@, *]",
+                # a filter nested in a filter, then a shuffled selector: the mode stays on after a nested filter
+                "$[?@[?@]][*]", "$[?@[?@ != 2] || @ == 0].*"]
 # the same node reached twice: every occurrence shuffles independently
 DUP_DOCS = [{"a": {"x": 1, "y": 2}}, [{"x": 1, "y": 2}], {"a": {"x": 1, "y": 2}, "b": {"z": 3, "w": 4}},
             {"a": [{"p": 1, "q": 2}]}]
@@ -143,6 +145,13 @@ def compiled(query, flag="subclass"):
     from jsonpath_rfc9535 import JSONPathEnvironment
     e = JSONPathEnvironment()
     if flag == "instance-before-compile":
+        e.nondeterministic = True
+        return e.compile(query)
+    if flag == "instance-after-others-compiled-it":
+        # the same text was compiled before by other (deterministic) environments of the same class,
+        # the module-level default environment included
+        JSONPathEnvironment().compile(query)
+        impl.jp.compile(query)
         e.nondeterministic = True
         return e.compile(query)
     cq = e.compile(query)
@@ -241,13 +250,15 @@ def run_shard(desc):
         for q in WIDE_QUERIES:
             if ".." in q and desc["i"] >= 2:
                 continue  # descendant segments over wide documents: choice trees beyond any cap
-            for v in check_input(q, doc, sh):
-                sh.violation(v)
-            # the flag switched on on a plain instance, before or after the query was compiled
+            # the flag switched on on a plain instance, before or after the query was compiled (the
+            # history in which other environments compiled the text first comes first, before this
+            # process has compiled the text on any nondeterministic environment)
             if desc["i"] in (0, 3, 5):
-                for flag in ("instance-before-compile", "instance-after-compile"):
+                for flag in ("instance-after-others-compiled-it", "instance-before-compile", "instance-after-compile"):
                     for v in check_input(q, doc, sh, flag=flag):
                         sh.violation(v)
+            for v in check_input(q, doc, sh):
+                sh.violation(v)
         sh.sample({"query": WIDE_QUERIES[0], "doc": impl.jsonable(doc)}, limit=1)
     elif desc["part"] == "dup":
         doc = DUP_DOCS[desc["i"]]
